@@ -752,7 +752,8 @@ pub fn speed_limit_run(ctx: &mut Ctx, rng: &mut Rng, interval: Option<usize>, ex
     let init = if rng.chance(0.3) { Some(InitTrainState::new(Some(uc::S * rng.range(0.0, 5000.0)), None, None)) } else { None };
     let builder = TrainSimBuilder::new("t".into(), b.spec.config.clone(), b.spec.consist.clone(), Some(o.into()), Some(dname.into()), init);
     let sim_days = *rng.pick(&[None, Some(1), Some(7), Some(365)]);
-    let mut sim = match builder.make_speed_limit_train_sim(&lm, interval, sim_days, None) {
+    let scenario_year = *rng.pick(&[None, Some(2025), Some(2040)]);
+    let mut sim = match builder.make_speed_limit_train_sim(&lm, interval, sim_days, scenario_year) {
         Ok(s) => s,
         Err(e) => {
             ctx.count("obs.builder_err");
